@@ -1016,15 +1016,34 @@ func callBuiltin(caller *frame, callpos token.Pos, fn *ssa.Builtin, args []value
 			// append([]byte, ...string) []byte
 			return append(args[0].([]value), asByteSeq(args[1])...)
 		}
-		// append([]T, ...[]T) []T
-		return append(args[0].([]value), args[1].([]value)...)
+		// append([]T, ...[]T) []T  (struct and array elements are copied by value)
+		src := args[1].([]value)
+		dst := args[0].([]value)
+		for _, e := range src {
+			dst = append(dst, copyVal(e))
+		}
+		return dst
 
 	case "copy": // copy([]T, []T) int or copy([]byte, string) int
 		src := args[1]
 		if isStringLike(src) {
 			src = asByteSeq(src)
 		}
-		return copy(args[0].([]value), src.([]value))
+		d, sv := args[0].([]value), src.([]value)
+		n := len(d)
+		if len(sv) < n {
+			n = len(sv)
+		}
+		if n > 0 && !isAggregate(sv[0]) {
+			return copy(d, sv)
+		}
+		// aggregates: copy by value; handle overlap like memmove
+		tmp := make([]value, n)
+		for i := 0; i < n; i++ {
+			tmp[i] = copyVal(sv[i])
+		}
+		copy(d, tmp)
+		return n
 
 	case "close": // close(chan T)
 		Sched.closeChan(args[0].(*chanObj))
@@ -1595,4 +1614,32 @@ func fandbits[F floaty](x, y F) F {
 		*(*uint64)(unsafe.Pointer(&x)) &= *(*uint64)(unsafe.Pointer(&y))
 	}
 	return x
+}
+
+func isAggregate(v value) bool {
+	switch v.(type) {
+	case structure, array:
+		return true
+	}
+	return false
+}
+
+// copyVal copies a value with Go's value semantics: structs and arrays are cloned
+// (recursively), everything else (pointers, slices, maps, scalars) is shared.
+func copyVal(v value) value {
+	switch v := v.(type) {
+	case structure:
+		c := make(structure, len(v))
+		for i, f := range v {
+			c[i] = copyVal(f)
+		}
+		return c
+	case array:
+		c := make(array, len(v))
+		for i, f := range v {
+			c[i] = copyVal(f)
+		}
+		return c
+	}
+	return v
 }
